@@ -103,7 +103,7 @@ func ruleSchedShard(r *core.Run) {
 			}
 			done[st.Block()] = true
 			n++
-			key := core.Key("T-sched-shard", r.P.Name(f), fmt.Sprintf("period (re)started#%d => release scheduled", n))
+			key := core.Key("T-sched-shard", r.KeyName(f), fmt.Sprintf("period (re)started#%d => release scheduled", n))
 			if ok, w := ck.MustRespond(st.Block(), succ, sched, nil); ok {
 				r.Discharge("T-sched-shard", key, r.P.Pos(st.Pos()), "every success path after the shard's CreatedAt/Duration are set passes SetExpiredShardBlock")
 			} else {
@@ -113,7 +113,7 @@ func ruleSchedShard(r *core.Run) {
 		// the scheduled height is the end of that shard's own period
 		for i, c := range callsIn(r, f, fSetExpShard) {
 			t := callTerm(res, c)
-			key := core.Key("T-sched-shard", r.P.Name(f), fmt.Sprintf("SetExpiredShardBlock#%d at own end height", i+1))
+			key := core.Key("T-sched-shard", r.KeyName(f), fmt.Sprintf("SetExpiredShardBlock#%d at own end height", i+1))
 			if t == nil || len(t.Args) != 2 {
 				continue
 			}
@@ -320,7 +320,7 @@ func rulePaidEnd(r *core.Run) {
 				continue // a loop over RenewInfos that does not compute an end height (e.g. pledge maximum)
 			}
 			n++
-			key := core.Key("T-paid-end", r.P.Name(f), fmt.Sprintf("sum over RenewInfos#%d", n))
+			key := core.Key("T-paid-end", r.KeyName(f), fmt.Sprintf("sum over RenewInfos#%d", n))
 			if cutsAllCycles(l, add) {
 				r.Discharge("T-paid-end", key, r.P.Pos(lastPos(l.Header)), "every queued renewal's Duration is added to the shard's paid end")
 			} else {
@@ -603,7 +603,7 @@ func checkC13(r *core.Run) {
 					continue
 				}
 				nCreate++
-				key := core.Key("T-listed", r.P.Name(f), fmt.Sprintf("%s#%d", creator, i+1))
+				key := core.Key("T-listed", r.KeyName(f), fmt.Sprintf("%s#%d", creator, i+1))
 				newID := normT(res.Of(call).String()) + ".Id"
 				// 1. the id is appended to some <order>.Shards
 				var listStore *ssa.Store
@@ -863,7 +863,7 @@ func ruleTimeoutHeight(r *core.Run) {
 				continue
 			}
 			n++
-			key := core.Key("T-timeout-height", r.P.Name(f), fmt.Sprintf("SetTimeoutOrderBlock#%d height", i+1))
+			key := core.Key("T-timeout-height", r.KeyName(f), fmt.Sprintf("SetTimeoutOrderBlock#%d height", i+1))
 			h := normT(t.Args[1].String())
 			switch {
 			case strings.HasPrefix(h, "(uint64(sdk.Context.BlockHeight()) + ") && strings.Contains(h, ".Timeout)"):
@@ -1243,7 +1243,7 @@ func ruleLostUpdate(r *core.Run, id string, prefixes ...string) {
 			res := r.Resolver(f)
 			mn, _ := res.CalleeName(lu.Mid.Common())
 			bn, _ := res.CalleeName(lu.Back.Common())
-			k := core.Key(id, r.P.Name(f), lu.Prefix, mn+" then "+bn)
+			k := core.Key(id, r.KeyName(f), lu.Prefix, mn+" then "+bn)
 			if seen[k] {
 				continue
 			}
